@@ -127,6 +127,20 @@ def expSelect (x : FVal) : ExpOut :=
   let r := if overflow then ExpOut.inf else ExpOut.core
   if underflow then ExpOut.zero else r
 
+/-- Class of an f32 result. -/
+inductive FRes where
+  | nan | zero | inf | val
+  deriving Repr, DecidableEq
+
+/-- Value class returned by `Exp::eval` when the arithmetic part (range reduction, polynomial,
+`r·s·t`) yields a result of class `core x` — `core` is a parameter: nothing is assumed about
+what the arithmetic produces (for `x = ±∞` it is in fact NaN, from `∞ − ∞`). -/
+def expValue (core : FVal → FRes) (x : FVal) : FRes :=
+  match expSelect x with
+  | .zero => .zero
+  | .inf => .inf
+  | .core => core x
+
 /-- The same two selects applied in the opposite order (for the order-independence lemma). -/
 def expSelectSwapped (x : FVal) : ExpOut :=
   let overflow := geC x 104 1
